@@ -1124,7 +1124,8 @@ impl Interp {
                         who = x;
                     }
                 }
-                vec![ROp::Claim { user: who, to: to.map(|t| self.user(t)) }]
+                // recipient index 5 names the reward contract itself
+                vec![ROp::Claim { user: who, to: to.map(|t| if t == 5 { REWARD.to_string() } else { self.user(t) }) }]
             }
             Op::Accrue { v, coin, amt } => {
                 // first validator at index >= v (wrapping) on which the hub has stake
@@ -1485,7 +1486,11 @@ impl Interp {
             }
             ROp::SetParams { epoch, fee, threshold } => {
                 // `paused` is re-sent with its current value: the hub clears it when omitted
-                let paused = hub_params(w).paused;
+                let mut paused = hub_params(w).paused;
+                // while the hub is running, half of the updates leave `paused` out (the hub defines that as "not paused")
+                if !paused.unwrap_or(false) && fee.is_some() {
+                    paused = None;
+                }
                 w.tx(
                     OWNER,
                     HUB,
